@@ -100,7 +100,7 @@ def searchAliasInImports (qis : List QImport) (aliasName : String) : String × S
   | none => ("", "")
 
 /-- `_find_alias` -/
-def findAlias (env : AEnv) (s : VSt) (typeName : String) : Except PyErr (String × String) :=
+def findAlias (env : AEnv) (s : VSt) (typeName : String) (knownQname : String := "") : Except PyErr (String × String) :=
   match bottomModule s with
   | none => .error .typeError
   | some m =>
@@ -111,7 +111,9 @@ def findAlias (env : AEnv) (s : VSt) (typeName : String) : Except PyErr (String 
       | none => .ok (name, qname)
       | some [q] => .ok (lastD "" (splitDot q), q)
       | some qs =>
-        -- several definitions of that name: the first one, in sorted order, whose path contains the current module's name
+        -- several definitions of that name: the qualified name the caller already knows, if it is one of them;
+        -- else the first one, in sorted order, whose path contains the current module's name
+        if qs.contains knownQname then .ok (lastD "" (splitDot knownQname), knownQname) else
         let step := fun (acc : String × String × Bool) (aq : String) =>
           if acc.2.2 then acc
           else
@@ -977,7 +979,7 @@ def enterClassdef (env : AEnv) (name fullname : String) (bases removed : List Ba
   let supers ← (bases.filter (·.hasFullname)).mapM fun b => (do
     let n := lastD "" (splitDot b.fullname)
     if (assocGet? env.aliases n).isSome then
-      match findAlias env s n with
+      match findAlias env s n b.fullname with
       | .error e => throwV e
       | .ok (_, q) => pure (if q != "" then q else b.fullname)
     else pure b.fullname : V String)
